@@ -386,9 +386,68 @@ def cancel_inverses(p):
     return out
 
 
+def _prepr(p):
+    return repr(sorted((m, str(cf)) for m, cf in p.t.items()))
+
+
+def _lead_negative(p):
+    return bool(p.t) and p.t[sorted(p.t, key=repr)[0]] < 0
+
+
+def _cond_key(c, walk):
+    """Canonical text of a condition: comparisons by the normal form of lhs - rhs."""
+    k = c.decl().kind() if z3.is_app(c) else None
+    ops = {z3.Z3_OP_GE: ">=", z3.Z3_OP_GT: ">", z3.Z3_OP_LE: "<=", z3.Z3_OP_LT: "<", z3.Z3_OP_EQ: "==",
+           z3.Z3_OP_DISTINCT: "!="}
+    if k in ops and z3.is_arith(c.arg(0)):
+        d = reduce_trig(cancel_inverses(walk(c.arg(0)) - walk(c.arg(1))), _ctx["pairs"])
+        op = ops[k]
+        if _lead_negative(d):
+            d = -d
+            op = {">=": "<=", ">": "<", "<=": ">=", "<": ">", "==": "==", "!=": "!="}[op]
+        return "(%s 0 %s)" % (op, _prepr(d)), (op, d)
+    if k == z3.Z3_OP_NOT:
+        return "(not %s)" % _cond_key(c.arg(0), walk)[0], None
+    if k in (z3.Z3_OP_AND, z3.Z3_OP_OR):
+        return "(%s %s)" % ("and" if k == z3.Z3_OP_AND else "or",
+                            " ".join(sorted(_cond_key(x, walk)[0] for x in c.children()))), None
+    return z3.simplify(c).sexpr(), None
+
+
+def ite_atom(e, atoms, walk, keep):
+    """If(c, a, b) keyed by the normal forms of its parts; If(x >= 0, x, -x) and its variants are +-|x| with the
+    sign of x normalised (|x| = |-x|).  Only used by parity proofs."""
+    c, a, b = e.children()
+    try:
+        pa = reduce_trig(cancel_inverses(walk(a)), _ctx["pairs"])
+        pb = reduce_trig(cancel_inverses(walk(b)), _ctx["pairs"])
+        ck, cmp_ = _cond_key(c, walk)
+    except NotPolynomial:
+        return None
+    if cmp_ is not None and (pa + pb).is_zero() and not pa.is_zero() and cmp_[0] in (">=", ">", "<=", "<"):
+        op, d = cmp_                       # condition: d op 0 with the leading coefficient of d positive
+        for sgn, x in ((1, pa), (-1, -pa)):
+            if (d - x).is_zero():
+                # value = a if (x op 0) else -a, a = sgn * x
+                positive_branch = op in (">=", ">")      # the 'then' value is taken where x is non-negative
+                s = sgn if positive_branch else -sgn     # then-branch value sgn*x where x >= 0  ->  sgn*|x| ... 
+                canon = x if not _lead_negative(x) else -x
+                key = "abs(%s)" % _prepr(canon)
+                if key not in atoms:
+                    t = z3.Function("abs", z3.RealSort(), z3.RealSort())(poly_to_term(canon, atoms))
+                    atoms[key] = (len(atoms), t)
+                return Poly.var(atoms[key][0]).scale(s)
+    key = "ite(%s;%s;%s)" % (ck, _prepr(pa), _prepr(pb))
+    if key not in atoms:
+        atoms[key] = (len(atoms), e)
+    return Poly.var(atoms[key][0])
+
+
 def to_poly(e, atoms, limit=30000):
     """z3 real/int term -> Poly; atoms: dict sexpr -> (index, term)."""
     memo = {}
+    keep = []
+    limit = _ctx.get("limit") or limit
     _ctx["inv"] = _inv_table(atoms)      # cancel_inverses works on the table of the most recent conversion
 
     def walk(e):
@@ -470,6 +529,23 @@ def to_poly(e, atoms, limit=30000):
                             r = canon_sqrt(P, atoms)
                     except NotPolynomial:
                         r = None
+                if r is None and _ctx.get("parity") and e.num_args() == 1 and e.decl().name() in _ctx["parity"] \
+                        and e.decl().kind() == z3.Z3_OP_UNINTERPRETED:
+                    # f(-x) = f(x) (even) or -f(x) (odd): the argument is normalised to a positive leading coefficient
+                    try:
+                        pa = reduce_trig(cancel_inverses(walk(e.arg(0))), _ctx["pairs"])
+                    except NotPolynomial:
+                        pa = None
+                    if pa is not None and pa.t:
+                        lead = pa.t[sorted(pa.t, key=repr)[0]]
+                        if lead < 0:
+                            flipped = e.decl()(poly_to_term(-pa, atoms))
+                            keep.append(flipped)        # memo is keyed by term id: the term must stay alive
+                            r = walk(flipped)
+                            if _ctx["parity"][e.decl().name()] == "odd":
+                                r = -r
+                if r is None and _ctx.get("parity") and kind == z3.Z3_OP_ITE and z3.is_real(e):
+                    r = ite_atom(e, atoms, walk, keep)
                 if r is None:
                     s = canon_key(e, atoms)
                     if s not in atoms:
@@ -606,7 +682,7 @@ def split_goal(goal):
     return None
 
 
-def decide(goal, trig_pairs=(), nonneg=None):
+def decide(goal, trig_pairs=(), nonneg=None, parity=None, limit=None):
     """Returns ('unsat', None) if every equality is an identity modulo the trig
     relations, ('sat', witness) with a numeric assignment of the atoms when a
     difference evaluates to non-zero, or ('unknown', None)."""
@@ -616,10 +692,14 @@ def decide(goal, trig_pairs=(), nonneg=None):
     atoms = {}
     _ctx["pairs"] = []
     _ctx["nonneg"] = set(nonneg) if nonneg is not None else None
+    _ctx["parity"] = dict(parity) if parity else None
+    _ctx["limit"] = limit
     try:
         return _decide(eqs, atoms, trig_pairs)
     finally:
         _ctx["nonneg"] = None
+        _ctx["parity"] = None
+        _ctx["limit"] = None
         _ctx["pairs"] = []
 
 
